@@ -22,7 +22,7 @@ ASSUMPTIONS = [
 ]
 REQUIRED = {"eval.post": 1000, "checked_results": 200}
 MIN_NONTRIVIAL = {"quick": 30, "thorough": 200}
-PLAN = [("cell", 1152, 17280), ("faulty", 300, 4000), ("general", 300, 4000)]
+PLAN = [("cell", 1152, 17280), ("faulty", 300, 4000), ("general", 300, 4000), ("cross", 300, 6000)]
 
 CELLS = list(itertools.product(
     (False, True), ("none", "some", "allbut1"), ("none", "lin", "nl", "both"),
@@ -104,7 +104,10 @@ def make_spec(case):
 
 
 def run_case(case):
-    spec = make_spec(case)
+    if case["fam"] == "cross":
+        spec, _src = e2e.cross_spec(ID, case)
+    else:
+        spec = make_spec(case)
     rec = mrun.run(spec)
     viols, info = oracles.o_c02(rec)
     counts = e2e.base_counts(rec)
